@@ -107,15 +107,29 @@ def run(ctx):
         pred[0:2, 0:2] = pls[0]; pred[3:4, 0:2] = pls[1]          # second prediction is unmatched -> fresh label max(ref)+1
         cases.append((it, rng.choice(subsets), pred, ref))
     model_in, model_meta = [], []
+    # all evaluators (custom handler tables and default-constructed handlers) are built BEFORE any of them is used: a handler's
+    # prescription must not depend on which other handlers were constructed after it
+    prepared = []
     for it, gm, pred, ref in cases:
         rot = rng.randrange(5)
-        table = {m: [(v + i * rot) % 5 for v in INJ] for i, m in enumerate(impl.METRICS)}
-        cfg = {"input": it, "imetrics": ["IOU"], "gmetrics": gm, "table": table, "std": 1}
-        out = impl.evaluate(impl.make_evaluator(cfg), pred.copy(), ref.copy())
+        if rng.random() < 0.15:
+            table, tarb = {m: list(v) for m, v in impl.DEFAULT_TABLE.items()}, None
+        else:
+            base = INJ if rng.random() < 0.7 else rng.choice([[2, 3, 0, 2], [3, 0, 2, 3], [0, 0, 0, 0], [2, 2, 3, 2]])   # entries left to default_result
+            table = {m: [(v + i * rot) % 5 for v in base] for i, m in enumerate(impl.METRICS)}
+            tarb = table
+        cfg = {"input": it, "imetrics": ["IOU"], "gmetrics": gm, "table": tarb, "std": 1}
+        prepared.append((it, gm, pred, ref, table, cfg, impl.make_evaluator(cfg)))
+    order = list(range(len(prepared)))
+    rng.shuffle(order)
+    for j in order:
+        it, gm, pred, ref, table, cfg, ev = prepared[j]
+        out = impl.evaluate(ev, pred.copy(), ref.copy())
         nontriv = (not pred.any()) or (not ref.any()) or len(np.unique(pred)) > 2 or len(np.unique(ref)) > 2
         ctx.count({"input": it, "gm": gm, "pred": pred.tolist(), "ref": ref.tolist()}, nontriv)
         ctx.bump(f"{it}/pe={not pred.any()}/re={not ref.any()}")
-        case = {"input": it, "gmetrics": gm, "table": table, "pred": pred, "ref": ref}
+        case = {"input": it, "gmetrics": gm, "table": table, "pred": pred, "ref": ref, "default_constructed": cfg["table"] is None,
+                "other_handlers_constructed": len(prepared) - 1}
         exp = {m: expected(table, m, pred, ref) for m in gm}
         if isinstance(out, tuple):
             # a raising global metric (e.g. RVD quotient undefined) propagates; only a violation if no metric is expected to raise
@@ -180,8 +194,14 @@ def replay(path):
     common.serial_pool()
     d = json.loads(open(path).read())
     pred, ref = common.arr_from_json(d["pred"]), common.arr_from_json(d["ref"])
-    cfg = {"input": d["input"], "imetrics": ["IOU"], "gmetrics": d["gmetrics"], "table": d["table"], "std": 1}
-    out = impl.evaluate(impl.make_evaluator(cfg), pred, ref)
+    cfg = {"input": d["input"], "imetrics": ["IOU"], "gmetrics": d["gmetrics"], "table": None if d.get("default_constructed") else d["table"], "std": 1}
+    ev = impl.make_evaluator(cfg)
+    if d.get("other_handlers_constructed"):
+        # as in the run: other handlers with other tables are constructed after this evaluator and before it is used
+        for rot in range(5):
+            impl.make_evaluator({"input": "matched", "imetrics": ["IOU"], "gmetrics": [], "std": 1,
+                                 "table": {m: [(v + i * rot) % 5 for v in INJ] for i, m in enumerate(impl.METRICS)}})
+    out = impl.evaluate(ev, pred, ref)
     got = out if isinstance(out, tuple) else impl.canon_result(out["ungrouped"][0])["globals"]
     print("implementation globals:", got)
     exp = {m: expected(d["table"], m, pred, ref) for m in d["gmetrics"]}
